@@ -19,8 +19,8 @@ def reach (api : Api) (l : Loss) : Nat → List St
     let r := reach api l n
     (r ++ r.flatMap fun s => [step api l s .caller, step api l s .loss]).eraseDups
 
-/-- 10 rounds saturate every row (checked by `closed` below) -/
-def R (api : Api) (l : Loss) : List St := reach api l 10
+/-- 14 rounds saturate every row (checked by `closed` below) -/
+def R (api : Api) (l : Loss) : List St := reach api l 14
 
 private theorem init_mem : ∀ api ∈ apiTable, ∀ l ∈ [Loss.remote, Loss.localClose], init ∈ R api l := by
   decide +kernel
@@ -130,17 +130,55 @@ theorem ensure_session_old_spins_witness (n : Nat) :
   simp only [run] at this
   rw [this]
 
+/-- a channel request as it was, racing the loss: the openness check passes, the connection is lost (the event is
+set for the last time), then `_event_pending()` clears it — the call waits for ever, under any later schedule -/
+theorem channel_request_old_hangs_when_loss_races_the_call_witness (sch : List Tid) :
+    (run channelRequestOld .remote init ([.caller, .loss, .loss, .loss, .caller] ++ sch)).pc = .waiting := by
+  have h := stuck_forever channelRequestOld .remote
+    (run channelRequestOld .remote init [.caller, .loss, .loss, .loss, .caller])
+    (by decide) (by decide) (by decide) sch
+  simp only [run, List.foldl_append] at h ⊢
+  rw [h]; decide
+
+/-- `accept()` with the wake-up issued before `active = False`: a call entered between the two parks for ever -/
+theorem accept_notify_before_inactive_hangs_witness (sch : List Tid) :
+    (run acceptNotifyFirst .remote init ([.loss, .caller, .loss] ++ sch)).pc = .waiting := by
+  have h := stuck_forever acceptNotifyFirst .remote (run acceptNotifyFirst .remote init [.loss, .caller, .loss])
+    (by decide) (by decide) (by decide) sch
+  simp only [run, List.foldl_append] at h ⊢
+  rw [h]; decide
+
+/-! ### the rows take their wake-ups from the source: sanity of the generated sequences -/
+
+/-- on both paths the transport is marked inactive, and on both `accept` waiters are notified after that -/
+theorem accept_is_notified_after_inactive :
+    srcProg .accept .remote = [.setInactive, .notify] ∧ srcProg .accept .localClose = [.setInactive, .notify] := by
+  decide
+
+/-- both paths close every channel (flag + notify_all reach channel waiters) -/
+theorem both_paths_close_channels :
+    LAct.setFlag ∈ srcProg .chanCv .remote ∧ LAct.notify ∈ srcProg .chanCv .remote ∧
+    LAct.setFlag ∈ srcProg .chanCv .localClose ∧ LAct.notify ∈ srcProg .chanCv .localClose := by decide
+
 /-! ### any number of callers blocked on the same object (notify_all reaches every one) -/
 
-private theorem stepCaller_shared (api : Api) (s : St) :
+private theorem table_clear_guarded : ∀ api ∈ apiTable, api.clear ≠ .unguarded := by decide
+
+private theorem stepCaller_shared (api : Api) (hcl : api.clear ≠ .unguarded) (s : St) :
     (stepCaller api s).active = s.active ∧ (stepCaller api s).flag = s.flag ∧
     (stepCaller api s).lossPc = s.lossPc := by
+  have hcl' : (api.clear == .unguarded) = false := by
+    cases h : api.clear <;> simp_all
   unfold stepCaller
   split
   · exact ⟨rfl, rfl, rfl⟩
   · split
     · exact ⟨rfl, rfl, rfl⟩
-    · split <;> exact ⟨rfl, rfl, rfl⟩
+    · split
+      · exact ⟨rfl, rfl, rfl⟩
+      · split <;> exact ⟨rfl, rfl, rfl⟩
+  · simp only [hcl']
+    exact ⟨rfl, rfl, rfl⟩
   · split
     · exact ⟨rfl, rfl, rfl⟩
     · split
@@ -165,7 +203,7 @@ private theorem notifyAll_get (cs : List (Pc × Bool)) (i : Nat) :
 
 /-- caller `i` of the many-caller system evolves exactly like the single caller of `run` under the
     projected schedule: with `notify_all`, callers do not interact -/
-private theorem proj_run (api : Api) (l : Loss) (i : Nat) (sch : List MTid) :
+private theorem proj_run (api : Api) (hcl : api.clear ≠ .unguarded) (l : Loss) (i : Nat) (sch : List MTid) :
     ∀ (m : MSt) (c : Pc × Bool), m.cs[i]? = some c →
     ∃ c', (mrun api l true m sch).cs[i]? = some c' ∧
       (mrun api l true m sch).view c' = run api l (m.view c) (projSched i sch) := by
@@ -210,7 +248,7 @@ private theorem proj_run (api : Api) (l : Loss) (i : Nat) (sch : List MTid) :
         have hv : (mstep api l true m (.caller j)).view
             ((stepCaller api (m.view c)).pc, (stepCaller api (m.view c)).notified) =
             stepCaller api (m.view c) := by
-          obtain ⟨ha, hf, hl⟩ := stepCaller_shared api (m.view c)
+          obtain ⟨ha, hf, hl⟩ := stepCaller_shared api hcl (m.view c)
           simp only [mstep, h, MSt.view] at ha hf hl ⊢
           cases hs : stepCaller api { active := m.active, flag := m.flag, lossPc := m.lossPc, pc := c.1, notified := c.2 }
           simp_all
@@ -244,7 +282,7 @@ theorem all_callers_return (api : Api) (hapi : api ∈ apiTable) (l : Loss) (n i
       returnsPromptly api l ((mrun api l true (minit n) sch).view c) = true := by
   have h0 : (minit n).cs[i]? = some (.start, false) := by
     simp [minit, List.getElem?_replicate, hi]
-  obtain ⟨c, hc, hv⟩ := proj_run api l i sch (minit n) (.start, false) h0
+  obtain ⟨c, hc, hv⟩ := proj_run api (table_clear_guarded api hapi) l i sch (minit n) (.start, false) h0
   refine ⟨c, hc, ?_⟩
   have hinit : (minit n).view (.start, false) = init := rfl
   rw [hv, hinit]
